@@ -12,6 +12,7 @@ import (
 	"fmt"
 	"io"
 	"math"
+	"net"
 	"os"
 	"strings"
 	"time"
@@ -1353,6 +1354,188 @@ func readersTerminate() {
 	}
 }
 
+// ---- ReadDeadline / ReadFrom conserve the stream (Go-side oracle only) ---------------------
+//
+// pconn is a scripted net.Conn: it holds the bytes that were "sent" and delivers them in pieces of
+// chosen sizes; a Read with a buffer smaller than the current piece gets the front of the piece and
+// the rest stays readable (a conn never loses bytes by itself).  After the last piece it reports
+// io.EOF or a timeout.
+type pconn struct {
+	data    []byte
+	pieces  []int
+	pi, off int // current piece, bytes of it already delivered
+	pos     int
+	timeout bool
+	reads   int
+}
+type timeoutErr struct{}
+
+func (timeoutErr) Error() string   { return "i/o timeout" }
+func (timeoutErr) Timeout() bool   { return true }
+func (timeoutErr) Temporary() bool { return true }
+
+func (p *pconn) Read(b []byte) (int, error) {
+	p.reads++
+	if p.pos >= len(p.data) {
+		if p.timeout {
+			return 0, timeoutErr{}
+		}
+		return 0, io.EOF
+	}
+	if len(b) == 0 {
+		return 0, nil
+	}
+	k := len(p.data) - p.pos
+	if p.pi < len(p.pieces) {
+		if k2 := p.pieces[p.pi] - p.off; k2 < k {
+			k = k2
+		}
+	}
+	n := copy(b, p.data[p.pos:p.pos+k])
+	p.pos, p.off = p.pos+n, p.off+n
+	if p.pi < len(p.pieces) && p.off >= p.pieces[p.pi] {
+		p.pi, p.off = p.pi+1, 0
+	}
+	return n, nil
+}
+func (p *pconn) Write(b []byte) (int, error)        { return len(b), nil }
+func (p *pconn) Close() error                       { return nil }
+func (p *pconn) LocalAddr() net.Addr                { return nil }
+func (p *pconn) RemoteAddr() net.Addr               { return nil }
+func (p *pconn) SetDeadline(time.Time) error        { return nil }
+func (p *pconn) SetReadDeadline(time.Time) error    { return nil }
+func (p *pconn) SetWriteDeadline(time.Time) error   { return nil }
+
+// conserve runs Chunk.ReadDeadline (conn = true) or Chunk.ReadFrom over a scripted source and
+// checks: the count reported == the bytes the Chunk accepted; the bytes the Chunk holds followed by
+// the bytes STILL READABLE from the source == the bytes sent, in order (nothing pulled off the
+// connection is dropped); a limited Chunk does not exceed its Limit.
+func conserve(conn bool, limit, pre, total int, pieces []int, timeout bool, d time.Duration) {
+	name := "ReadFrom"
+	if conn {
+		name = "ReadDeadline"
+	}
+	sent := make([]byte, total)
+	for i := range sent {
+		sent[i] = byte(i*7 + 3)
+	}
+	dd := map[string]interface{}{"call": name, "limit": limit, "already_held": pre, "sent": total, "pieces": pieces, "ends_with_timeout": timeout}
+	c := &data.Chunk{Limit: limit}
+	if pre > 0 {
+		c.Write(bytes.Repeat([]byte{0xAA}, pre))
+		pre = c.Size()
+	}
+	src := &pconn{data: sent, pieces: pieces, timeout: timeout && conn}
+	var (
+		n   int64
+		err error
+	)
+	done := make(chan string, 1)
+	go func() {
+		defer func() {
+			if r := recover(); r != nil {
+				done <- fmt.Sprint("panic: ", r)
+			}
+		}()
+		if conn {
+			n, err = c.ReadDeadline(src, d)
+		} else {
+			n, err = c.ReadFrom(src)
+		}
+		done <- ""
+	}()
+	select {
+	case what := <-done:
+		if what != "" {
+			out.Fail(name+": "+what, "stream-"+strings.ToLower(name)+"-panic", dd)
+			return
+		}
+	case <-time.After(3 * time.Second):
+		out.Fail(name+" does not return", "stream-"+strings.ToLower(name)+"-hang", dd)
+		return
+	}
+	held := append([]byte(nil), c.Payload()...)
+	rest := sent[src.pos:]
+	acc := len(held) - pre
+	dd["reported"], dd["held"], dd["pulled_from_source"], dd["error"] = n, acc, src.pos, fmt.Sprint(err)
+	out.Count("stream-conservation/"+name, fmt.Sprint(limit, pre, total, pieces, timeout), limit > 0)
+	switch {
+	case acc < 0 || !bytes.Equal(append(append([]byte(nil), held[pre:]...), rest...), sent):
+		out.Fail(name+" pulled bytes off the source that are neither in the Chunk nor still readable (or stored them out of order)", "stream-"+strings.ToLower(name)+"-lost", dd)
+	case n != int64(acc):
+		out.Fail(name+" reports a count different from the bytes the Chunk accepted", "stream-"+strings.ToLower(name)+"-count", dd)
+	case limit > 0 && len(held) > limit:
+		out.Fail(name+" filled a limited Chunk above its Limit", "stream-"+strings.ToLower(name)+"-over-limit", dd)
+	case err != nil:
+		out.Fail(name+" returned an error although the source only ended (io.EOF / timeout) or the Chunk was full", "stream-"+strings.ToLower(name)+"-error", dd)
+	}
+}
+
+func streamsConserve(rng *vh.Rand, thorough bool) {
+	for _, conn := range []bool{true, false} {
+		// limits and piece sizes around the boundary: the last piece straddles the limit
+		for _, lim := range []int{0, 1, 2, 3, 4, 5, 8, 9, 10, 64, 65, 100} {
+			for _, k := range []int{1, 2, 3, 4, 5, 7} {
+				for _, pre := range []int{0, 1} {
+					base := lim
+					if base == 0 {
+						base = 20
+					}
+					for _, total := range []int{base - 1, base, base + 1, base + k, base + 2*k + 1} {
+						if total < 0 || pre > base {
+							continue
+						}
+						ps := []int{}
+						for t := 0; t < total; t += k {
+							ps = append(ps, k)
+						}
+						conserve(conn, lim, pre, total, ps, (lim+k+total)%2 == 0, time.Duration((k%2))*time.Millisecond)
+					}
+				}
+			}
+		}
+		// around the 4 KiB staging buffer and the 16 KiB growth boundary
+		for _, lim := range []int{0, 4095, 4096, 4097, 8192, 16384, 16385, 20000} {
+			for _, k := range []int{1000, 4095, 4096, 4097, 5000, 16384, 30000} {
+				base := lim
+				if base == 0 {
+					base = 9000
+				}
+				for _, total := range []int{base - 1, base + 1, base + k} {
+					ps := []int{}
+					for t := 0; t < total; t += k {
+						ps = append(ps, k)
+					}
+					conserve(conn, lim, 0, total, ps, false, 0)
+					conserve(conn, lim, 10, total, ps, true, time.Millisecond)
+				}
+			}
+		}
+		n := 300
+		if thorough {
+			n = 20000
+		}
+		for i := 0; i < n; i++ {
+			lim := []int{0, 1, 2, 3, 7, 8, 16, 33, 64, 100, 1000, 5000}[rng.Intn(12)]
+			total := rng.Intn(2*lim + 40)
+			var ps []int
+			for t := 0; t < total; {
+				k := 1 + rng.Intn(9)
+				if rng.Intn(5) == 0 {
+					k = 1 + rng.Intn(lim+10)
+				}
+				ps = append(ps, k)
+				t += k
+			}
+			pre := 0
+			if rng.Intn(3) == 0 && lim > 0 {
+				pre = rng.Intn(lim + 1)
+			}
+			conserve(conn, lim, pre, total, ps, rng.Bool(), time.Duration(rng.Intn(2))*time.Millisecond)
+		}
+	}
+}
+
 func main() {
 	fl := vh.ParseFlags()
 	out = vh.NewOut("C11", fl, "From XMT Require Import Base.Prelude Model.Chunk.", "case", "check",
@@ -1374,6 +1557,7 @@ func main() {
 		doSeq("corpus", s)
 	}
 	readersTerminate()
+	streamsConserve(rng, thorough)
 
 	small := profile{"small", []int{0, 1, 2, 3, 7, 8, 9, 10, 31, 32, 33, 63, 64, 65}, 60, limits, 0}
 	medium := profile{"medium", []int{0, 1, 63, 64, 65, 127, 128, 129, 255, 256, 257, 1000}, 40, []int{0, 64, 65, 1000, 16384, 20000}, 0}
